@@ -118,6 +118,13 @@ TEXT = {
         level_note="Trusted: the Go race detector (executed pairs only), synctest. Goroutines inside a bubble run truly in parallel; the drawn virtual delays decide which activities overlap.",
         design_ref="DESIGN.md section 4, C20",
     ),
+    "C12": dict(
+        technique="property-based generation of schema derivations (rapid) + translation validation of the emitted Go package: go/ast comparison and an executed driver, both derived from the harness's own schema model",
+        engine="rapid",
+        level_text="Translation validation per generated program (schema): the emitted package is parsed and every constant, item list, accessor index/type and constructor binding is compared with expectations computed from an independent schema reader; the package is compiled against /repo's working tree and a driver generated from the same model is run; generation is repeated into another directory and compared byte for byte; planted duplicates must be rejected; tests/fix44 is compared with a fresh generation from source/fix44.xml declaration by declaration.",
+        level_note="Trusted: harness/schema (own XML reader/writer), go/parser, the Go compiler. Known finding same-named-groups-conflated is reported as KNOWN-FINDING; expectations mirror the generator's choice for such groups so that everything else is still compared.",
+        design_ref="DESIGN.md section 4, C12",
+    ),
 }
 
 _claimed = set(TEXT)
